@@ -462,8 +462,16 @@ pub fn run_tdepth(sink: &mut Sink, _thorough: bool, seed: u64) {
             let mut ns: Vec<usize> = if per == 2 { vec![1, 2, 62, 63, 64, 65] } else { vec![1, 2, 63, 124, 125, 126, 127, 128, 129] };
             if nolimit { ns = if per == 2 { vec![63, 64, 100] } else { vec![127, 128, 200] }; }
             for n in ns {
-                for (leaf, lt, _) in leaves.iter() {
-                    let (s, text, _levels) = tower(kind, n, leaf, lt);
+                for (leaf, lt, leaf_levels) in leaves.iter() {
+                    let (s, text, levels) = tower(kind, n, leaf, lt);
+                    if !nolimit {
+                        // the statement itself on the complete tower: `levels + leaf_levels` containers are open at the deepest
+                        // point that counts against the limit (skipped content does not): accepted iff that is at most 127
+                        for src in ["slice", "reader"] {
+                            let o = outcome(&s, src, text.as_bytes(), chunks(&mut r));
+                            sink.case("ttd", &[c, src, &enc_schema(&s), &(levels + leaf_levels).to_string(), &hexf(text.as_bytes())], &o, &format!("tdepth-verdict:{}", class_of(&o)), true);
+                        }
+                    }
                     let se = enc_schema(&s);
                     let t = text.as_bytes();
                     let cut1 = text.len() - text.trim_end_matches(|ch| ch == ']' || ch == '}' || ch == ' ').len();
